@@ -77,6 +77,10 @@ def gen_spec(rng, depth=0, *, bad=0.0, reserved=0.0, tasks=True, nan=True, mixed
                 lambda: ['dict', False, [[['str', '_is_task'], ['int', '1']], [['str', 'x'], sub()]]],
                 lambda: ['dict', True, [[['str', '_is_task'], ['bool', False]], [['str', '_is_enum'], ['str', '']], [['str', 'k'], sub()]]],
                 lambda: ['dict', False, [[['str', 'x'], sub()], [['str', '_is_enum'], ['tuple', [['int', '0']]]]]],
+                # marker-using dicts that hold enum members and tasks (what is inside a wrapped dict is decoded like anything else)
+                lambda: ['dict', False, [[['str', '_is_task'], ['bool', True]], [['str', 'e'], ['enum', 'lv_universe', 'Color', 'RED']],
+                                         [['str', 't'], ['task', 'lv_universe', 'V2', [['x', ['int', '1']]]]]]],
+                lambda: ['dict', True, [[['str', '_is_enum'], ['int', '1']], [['str', 'l'], ['tuple', [['enum', 'lv_universe', 'Shade', 'DARK'], ['task', 'lv_universe', 'V', [['x', ['none']]]]]]]]],
             ])()
         keys = rng.sample(KEY_POOL, rng.randint(0, 3))
         kvs = []
